@@ -18,15 +18,25 @@ RULE = ('reciprocal_grid/realspace_grid: 1-3 axes x sizes 1..7 (even and odd) x 
         'A case is non-trivial when the input array is not identically zero / the shape has a transformed axis; '
         'distinct by (configuration, values).')
 ASSUMPTIONS = [
+    'Q vs R: for the grid/frequency functions the Q run is PROVED to be the rational restriction of the R model '
+    '(C18/Transfer.v); for the parts involving cos/sin/sqrt (phases, kernel, DFT values) the link between the Q '
+    'instance (CisQ.v) and the R instance is an assumption',
     'exact arithmetic: the model is the unrounded transform; float results are compared with tolerance 1e-9 '
     '(float64) / 2e-3 (float32) on small-integer inputs',
     'the 1-d passes inside np.fft / FFTW are not modelled individually: fftn is the composition of naive 1-d DFTs '
     '(which commute in exact arithmetic)',
     'PyWavelets filter banks (dwt/idwt numerics) are outside the model; only their coefficient lengths are modelled',
     'cos/sin at Q are a 64-bit fixed-point Taylor evaluation (C18/CisQ.v, error < 1e-17, compared with libm on every run)']
-TRUSTED = ['C18/CisQ.v as an approximation of exp(i pi a), pi and sqrt(2 pi) at Q',
+TRUSTED = ['translate/ft_formulas.py (Python ast -> Gallina: rmin/rmax/fmin/fmax case analyses, parity and half-complex '
+           'shape rules, phase exponents, kernel, back-end dispatch + normalisation of the _call_numpy methods), fail-closed',
+           'C18/CisQ.v as an approximation of exp(i pi a), pi and sqrt(2 pi) at Q',
            'NumPy broadcasting in fast_1d_tensor_mult modelled by index arithmetic (validated by the correspondence)',
            'np.fft / pyfftw / PyWavelets numerics (external; compared, not proved)']
+
+
+def translate():
+    from translate import ft_formulas
+    return {'Gen/FtFormulas.v': ft_formulas.translate()}
 
 
 # ------------------------------------------------- variant switches (measured)
@@ -34,7 +44,7 @@ _VAR = None
 
 
 def variants():
-    """Which recorded defects the CURRENT code exhibits, measured on their own repro inputs."""
+    """Whether the still-open finding ft-halfcomplex-unshifted-axis is already rejected at construction."""
     global _VAR
     if _VAR is not None:
         return _VAR
@@ -42,26 +52,6 @@ def variants():
     v = {}
     with warnings.catch_warnings():
         warnings.simplefilter('ignore')
-        sp = odl.uniform_discr(0, 1, 4)
-        y = np.fft.fft([1.0, 2, 3, 4])
-        try:
-            odl.trafos.DiscreteFourierTransformInverse(sp, halfcomplex=False, impl='pyfftw')(y)
-            v['dft_real_pyfftw'] = False
-        except ValueError:
-            v['dft_real_pyfftw'] = True
-        sp5 = odl.uniform_discr(0, 1, 5)
-        try:
-            odl.trafos.DiscreteFourierTransformInverse(sp5, halfcomplex=True, impl='numpy')(
-                np.fft.rfft([1.0, 2, 3, 4, 5]))
-            v['dft_hc_odd_numpy'] = False
-        except ValueError:
-            v['dft_hc_odd_numpy'] = True
-        try:
-            ft = odl.trafos.FourierTransform(sp, halfcomplex=False, shift=False, impl='pyfftw')
-            ft.inverse(ft(sp.one()))
-            v['ft_real_unshifted_pyfftw'] = False
-        except TypeError:
-            v['ft_real_unshifted_pyfftw'] = True
         sp2 = odl.uniform_discr([0, 0], [1, 1], (4, 5))
         try:
             odl.trafos.FourierTransform(sp2, halfcomplex=True, shift=(False, True), impl='numpy')
@@ -73,11 +63,7 @@ def variants():
 
 
 def var_lit():
-    v = variants()
-    return ('{| v_dft_real_pyfftw := %s; v_dft_hc_odd_numpy := %s; v_ft_real_unshifted_pyfftw := %s; '
-            'v_ft_hc_needs_all_shifts := %s |}'
-            % (C.b(v['dft_real_pyfftw']), C.b(v['dft_hc_odd_numpy']), C.b(v['ft_real_unshifted_pyfftw']),
-               C.b(v['ft_hc_needs_all_shifts'])))
+    return '{| v_ft_hc_needs_all_shifts := %s |}' % C.b(variants()['ft_hc_needs_all_shifts'])
 
 
 # ----------------------------------------------------------------- literals
@@ -247,9 +233,8 @@ def dft_cases(rng, tier):
                 else:
                     op = fwd
                     xin = _rand_arr(rng, shape, dt.startswith('complex'))
-                # the first pyfftw call on a fresh problem may return garbage (finding
-                # dft-pyfftw-real-firstcall, probed separately): record the second call
-                op(op.domain.element(np.array(xin, copy=True)))
+                # the very first call (the first-call defect of the pyfftw real transform, cc7c4de, would
+                # show here as well as in the probes)
                 out = np.asarray(op(op.domain.element(np.array(xin, copy=True))))
             outt = '(IOk %s)' % cqs(out)
         except Exception as e:
@@ -491,7 +476,8 @@ def haar_cases(rng, tier):
 def haarnd_cases(rng, tier):
     """Haar / pywt_periodic over a SUBSET of the axes of an N-d space with anisotropic cell sides."""
     import odl
-    cs = C.CaseSet('haarnd', ['C18.ModelH', 'C18.Corr'], 'check_haarnd', 'case_haarnd')
+    css = [C.CaseSet('haarnd%d' % i, ['C18.ModelH', 'C18.Corr'], 'check_haarnd', 'case_haarnd') for i in range(4)]
+    count = 0
     todo = []
     for nd in (1, 2, 3):
         for k in range(1, nd + 1):
@@ -524,16 +510,17 @@ def haarnd_cases(rng, tier):
                 % (C.nat(L), nats(shape), nats(axes), C.qs(sides), C.qs(x.ravel().tolist()), C.qs(fwd.tolist()),
                    C.qss([v.ravel().tolist() for v in xs]), C.qs(c.tolist()), C.qs(adj.tolist()),
                    C.qs(inv.tolist()), C.qs(iadj.tolist())))
-        cs.add(term, {'shape': shape, 'axes': axes, 'nlevels': L, 'cell_sides': sides,
-                      'x': x.ravel().tolist(), 'c': c.tolist()},
-               (tuple(shape), tuple(axes), L, tuple(sides), str(x.ravel().tolist()), str(c.tolist())))
-    return cs
+        css[count % 4].add(term, {'shape': shape, 'axes': axes, 'nlevels': L, 'cell_sides': sides,
+                                  'x': x.ravel().tolist(), 'c': c.tolist()},
+                           (tuple(shape), tuple(axes), L, tuple(sides), str(x.ravel().tolist()), str(c.tolist())))
+        count += 1
+    return css
 
 
 def correspondence(rng, tier):
     C.setup_impl_path()
     return [rg_cases(rng, tier), fac_cases(rng, tier), cis_cases(rng, tier), dft_cases(rng, tier), ft_cases(rng, tier)] \
-        + wavelet_cases(rng, tier) + [haar_cases(rng, tier), haarnd_cases(rng, tier)]
+        + wavelet_cases(rng, tier) + [haar_cases(rng, tier)] + haarnd_cases(rng, tier)
 
 
 LEVEL_TEXT = ('Partial proof. Proved in Coq for ALL sizes/shapes/axes lists/shift patterns/signs: reciprocal_grid has '
@@ -1015,10 +1002,38 @@ def fourier_adjoint_probes(rng, tier, out):
                        % (cls, axes, impl, shape, sides), snippet)
 
 
+def aliased_inplace_probes(rng, tier, out):
+    """`op(x, out=x)` on an operator whose range IS its domain (complex space): same values as
+    out-of-place, on the very first call too (in-place clause)."""
+    shapes = [[4], [5], [8], [3, 4], [2, 3, 4]] if tier == 'quick' else [[2], [4], [5], [8], [9], [16], [3, 4], [4, 4],
+                                                                           [5, 3], [2, 3, 4]]
+    for shape, impl, sg, inv, dt in itertools.product(shapes, ['numpy', 'pyfftw'], ['-', '+'], [False, True],
+                                                      ['complex128', 'complex64']):
+        nd = len(shape)
+        axes = _rand_axes(rng, nd)
+        ctor = ("odl.trafos.DiscreteFourierTransformInverse(sp, domain=sp, axes=%r, sign=%r, impl=%r)" if inv
+                else "odl.trafos.DiscreteFourierTransform(sp, range=sp, axes=%r, sign=%r, impl=%r)") % (axes, sg, impl)
+        snippet = (_PRE + "import pyfftw\nsp = odl.uniform_discr(%r, %r, %r, dtype=%r)\n"
+                   "x0 = (%s).astype(%r)\naxes = %r\n"
+                   "ref = np.fft.fftn(x0, axes=axes) if %r == '-' else np.fft.ifftn(x0, axes=axes) * np.prod([x0.shape[a] for a in axes])\n"
+                   "if %r: ref = ref / np.prod([x0.shape[a] for a in axes])\n"
+                   "pyfftw.forget_wisdom()\nop = %s\n"
+                   "x = sp.element(x0.copy()); op(x, out=x); first = float(np.abs(np.asarray(x) - ref).max())\n"
+                   "x = sp.element(x0.copy()); op(x, out=x); second = float(np.abs(np.asarray(x) - ref).max())\n"
+                   "observed = [first, second]; expected = [0.0, 0.0]\n"
+                   "ok = max(first, second) <= %r * (1 + np.abs(ref).max())\n"
+                   % ([0.0] * nd, [1.0] * nd, shape, dt, _arr_src(rng, shape, True, dt), dt, axes, sg, inv, ctor,
+                      _tolf(dt)))
+        _probe(out, 'dft-pyfftw-aliased-inplace-firstcall' if impl == 'pyfftw' else 'dft-aliased-inplace-numpy',
+               '%s: op(x, out=x) equals the out-of-place result on the first and second call (shape %s, %s)'
+               % (ctor, shape, dt), snippet)
+
+
 def probes(rng, tier):
     C.setup_impl_path()
     out = []
     grid_probes(rng, tier, out)
+    aliased_inplace_probes(rng, tier, out)
     wavelet_axes_adjoint_probes(rng, tier, out)
     fourier_adjoint_probes(rng, tier, out)
     dft_probes(rng, tier, out)
